@@ -33,9 +33,9 @@ CHECKS = {
    technique="fault injection around the real CLI (in-process and child process) with a gate-matrix reference simulator as oracle; seeded scenario generation, shrinking + replay files"),
  "C06": dict(
    category="exploration",
-   text="`quizx sim` is run in-process with the ambient-RNG seam (every Bernoulli draw of the sampler is a recorded decider decision), the fork-join seam (--parallel schedules and worker counts) and the Bernoulli observer installed, on generated QASM files, with every query kind, method and --parallel setting, each query repeated under another method and the other --parallel setting. Oracles from the harness's state-vector simulator: printed probability/expectation; S1 every printed sample has non-zero Born probability; S2 every (prefix, p) handed to a Bernoulli draw equals P(next=1 | prefix) - decidable pointwise only because the simulator owns the randomness; S3 chi-square of decider-driven samples at 1e-12. Malformed argv must be an error, not a panic or an answer. The shipped binary runs as a child for stdout/exit-status and under the same input/output fault kinds and the same system-call seam (short reads/writes, EINTR, errno failures at decider-chosen calls) as C03.",
+   text="`quizx sim` is run in-process with the ambient-RNG seam (every Bernoulli draw of the sampler is a recorded decider decision), the fork-join seam (--parallel schedules and worker counts) and the Bernoulli observer installed, on generated QASM files, with every query kind, method and --parallel setting, each query repeated under another method and the other --parallel setting. Oracles from the harness's state-vector simulator: printed probability/expectation; S1 every printed sample has non-zero Born probability; S2 every (prefix, p) handed to a Bernoulli draw equals P(next=1 | prefix) - decidable pointwise only because the simulator owns the randomness; S3 chi-square of decider-driven samples at 1e-12. Malformed argv must be an error, not a panic or an answer. S4: per-position drift of the printed bits against the reference conditionals (Hoeffding bound below 1e-12; needs no hook, works at any register width). Each run executes on a fresh OS thread; a third of the in-process runs are preceded on that thread by another Cli::run (a sibling circuit with other angles, another circuit at the same path, a failing call), a third find a longer file at the --out path; sub-batches with 1000..16385 shots and with 24..48-qubit registers. The shipped binary runs as a child for stdout/exit-status and under the same input/output fault kinds and the same system-call seam (short reads/writes, EINTR, errno failures at decider-chosen calls) as C03.",
    design_ref="DESIGN.md §4 C06",
-   note="Trusted: harness gate-matrix simulator (exact ring for Clifford+T, f64 otherwise), bit i of a printed string = qubit i. Bounds: <=4 qubits quick / 5 thorough, <=14 gates, <=16 shots (400/2000 in the statistics sub-batch). Known finding recorded in known_findings.json: 'No ts!' panic for non-Clifford phases other than odd multiples of pi/4.",
+   note="Trusted: harness gate-matrix simulator (exact ring for Clifford+T, f64 otherwise), bit i of a printed string = qubit i. Bounds: <=4 qubits quick / 5 thorough (5..8 in `deeper`, 24..48 factorised in `wide`), <=14 gates (<=45 in `deeper`), <=16 shots (400/2000 in `stats`, up to 16385 in `many_shots`). Known finding recorded in known_findings.json: 'No ts!' panic for non-Clifford phases other than odd multiples of pi/4.",
    technique="deterministic simulation: seeded decider behind the sampler's RNG seam and the fork-join seam, state-vector reference model (support, pointwise conditional-probability and chi-square oracles), fault injection around the real CLI, shrinking + replay files"),
  "C05": dict(
    category="exploration",
@@ -46,19 +46,19 @@ CHECKS = {
    engine="qsim + qmiri"),
  "C13": dict(
    category="exploration",
-   text="Seeded simulation of the qgraph round trip: the decider owns the generated diagram and, through the hash-order seam, the RandomState key of every map created in the encoder and in each of several independent decodes, so JSON member order, decoded vertex numbering and edge insertion order are recorded, replayable decisions instead of per-process accidents. Decoded graphs are compared with the original by an input/output-anchored isomorphism oracle (types, phases, edge types, coordinates), exact scalar comparison in Z[omega]/2^k for sqrt2^p e^{ik pi/4} and 1e-9 relative otherwise, tensor equality where evaluable, and pairwise between hash orders. The file form (write_graph/read_graph) runs on a real filesystem under injected ENOSPC, a torn write at a decider-chosen offset (RLIMIT_FSIZE, child process), missing directory and directory-as-target, and with write_graph resp. read_graph in a child process behind a system-call seam (LD_PRELOAD shim: short writes / short reads, EINTR, errno failures at decider-chosen open/read/write calls); only a reported success with a missing, undecodable or different file is a violation.",
+   text="Seeded simulation of the qgraph round trip: the decider owns the generated diagram and, through the hash-order seam, the RandomState key of every map created in the encoder and in each of several independent decodes, so JSON member order, decoded vertex numbering and edge insertion order are recorded, replayable decisions instead of per-process accidents. Decoded graphs are compared with the original by an input/output-anchored isomorphism oracle (types, phases, edge types, coordinates), exact scalar comparison in Z[omega]/2^k for sqrt2^p e^{ik pi/4} and 1e-9 relative otherwise, tensor equality where evaluable, and pairwise between hash orders. The file form (write_graph/read_graph) runs on a real filesystem under injected ENOSPC, a torn write at a decider-chosen offset (RLIMIT_FSIZE, child process), missing directory and directory-as-target, and with write_graph resp. read_graph in a child process behind a system-call seam (LD_PRELOAD shim: short writes / short reads, EINTR, errno failures at decider-chosen open/read/write calls); only a reported success with a missing, undecodable or different file is a violation. Sub-batch file_multi: histories of several write_graph calls into one directory under names that share stems and extensions, after which every file must hold the diagram written to it last.",
    design_ref="DESIGN.md §2.5, §4 C13",
-   note="Trusted: the isomorphism checker (self-tested on permuted copies and on edge-type mutations at every start), the ZX evaluator, tmpfs//dev/full/RLIMIT_FSIZE semantics. Coordinates are compared to 1e-12 relative (serde_json's default float parser is not correctly rounded in the last bit); for phase denominators above 256 - outside the exactness clause - only agreement to 1/256 is demanded; a scalar whose dyadic coefficients equal the original is accepted even if flagged approximate. Bounds: <=10 spiders, <=6 boundaries.",
+   note="Trusted: the isomorphism checker (self-tested on permuted copies and on edge-type mutations at every start), the ZX evaluator, tmpfs//dev/full/RLIMIT_FSIZE semantics. Coordinates are compared to 1e-12 relative (serde_json's default float parser is not correctly rounded in the last bit); for phase denominators above 256 - outside the exactness clause - only agreement to 1/256 is demanded; a scalar whose dyadic coefficients equal the original is accepted even if flagged approximate. Bounds: <=10 spiders (300 in the large-file runs), <=12 boundaries per side, scalar magnitudes 2^-1000..2^1000.",
    technique="deterministic simulation: seeded decider behind the hash-order seam + fault injection on the real filesystem, anchored-isomorphism / exact-scalar / tensor oracles, shrinking + replay files"),
  "C18": dict(
    category="exploration",
-   text="Seeded simulation of move histories: the simulator is the caller of the existing `impl Rng` seam (and of the ambient-RNG seam in rank_decomp), so every internal choice of every move and of the annealer is a recorded decision. After every operation the tree is checked structurally by the harness, against is_valid_for_graph, and its cached width/score against a cache-cleared recomputation and a brute-force F2 cut-rank oracle. Sampling, not enumeration: a clean batch is evidence within the stated bounds.",
-   design_ref="DESIGN.md §4 C18",
-   note="Trusted: the harness's F2 rank oracle and tree traversal (self-tested), rand's distribution algorithms. Bounds: <=14 vertices, <=60 operations per history, <=300 annealer iterations; annealer temperatures > 0 and 0 < cooling < 1.",
+   text="Seeded simulation of move histories: the simulator is the caller of the existing `impl Rng` seam (and of the ambient-RNG seam in rank_decomp), so every internal choice of every move and of the annealer is a recorded decision. After every operation the tree is checked structurally by the harness, against is_valid_for_graph, and its cached width/score against a cache-cleared recomputation and a brute-force F2 cut-rank oracle. Histories also fork the tree (one copy shelved, later queried: it must be unchanged and report the brute-force values) and a third of them run with a passive checker (no clones, no rank computations on the harness's behalf between the scenario's own queries), because a checker that exercises the code at every step changes the cache state it is supposed to observe. Sampling, not enumeration: a clean batch is evidence within the stated bounds.",
+   design_ref="DESIGN.md §4 C18, §9.6",
+   note="Trusted: the harness's F2 rank oracle and tree traversal (self-tested), rand's distribution algorithms. Bounds: <=14 vertices (<=26 in half of the annealer runs), <=60 operations per history (150..400 on 3..5-vertex graphs in sub-batch small_long), <=300 annealer iterations; annealer temperatures > 0 and 0 < cooling < 1.",
    technique="deterministic simulation: seeded decider behind the Rng seam, reference-model (brute-force cut-rank) oracle after every step, shrinking + replay files"),
  "C19": dict(
    category="exploration",
-   text="Reproducibility of a seeded generator is a statement about different executions, i.e. exactly this technique's replay-determinism proof applied to the repo's own generators: the same (generator, parameters, seed) is built twice on fresh builders with the ambient-RNG and hash-order seams installed (any draw from rand::rng() or any randomised map during a seeded build is counted and is a violation deterministically, not with some probability), on a second OS thread, and for a fraction of runs in a fresh child process (other RandomState keys, ASLR, OS entropy), and the objects are compared structurally. The promises are then decided by independent oracles: parameter conformance, |<shift|C|0>|^2 = 1 exactly (gate simulator in Z[omega]/2^k), squared norm exactly 1 (ZX evaluator), Pauli-gadget structure.",
+   text="Reproducibility of a seeded generator is a statement about different executions, i.e. exactly this technique's replay-determinism proof applied to the repo's own generators: the same (generator, parameters, seed) is built twice on fresh builders with the ambient-RNG and hash-order seams installed (any draw from rand::rng() or any randomised map during a seeded build is counted and is a violation deterministically, not with some probability), on a second OS thread, and for a fraction of runs in a fresh child process (other RandomState keys, ASLR, OS entropy), on a builder with a past (seeded again after a first batch; used before under another seed), and as a task of a worker of a rayon pool, and the objects are compared structurally. The promises are then decided by independent oracles: parameter conformance, |<shift|C|0>|^2 = 1 exactly (gate simulator in Z[omega]/2^k), squared norm exactly 1 (ZX evaluator), Pauli-gadget structure.",
    design_ref="DESIGN.md §4 C19",
    note="Trusted: gate simulator and ZX evaluator (self-tested). Admissible parameters as listed in the evidence assumptions. Known finding recorded in known_findings.json: RandomCircuitBuilder panics for qubits(1).",
    technique="deterministic simulation: cross-thread / cross-process replay diff with ambient-entropy seams counted, exact state-vector and ZX-evaluator oracles for the promises"),
